@@ -38,6 +38,9 @@ def gen(rng, n):
             v = (v + v[::-1]) / 2
         eps = float(10 ** rng.uniform(-5, -4.3))
     suc = float(1 - 10 ** rng.uniform(-5, -2))
+    if rng.random() < 0.15:
+        eps = float(rng.choice([1e-5, 1e-2]))            # corners of the stated box
+        suc = float(rng.choice([0.99, 1 - 1e-5]))
     box = (np.abs(v).sum() <= 0.9) and n <= 12 and 1e-5 <= eps <= 1e-2 and 0.99 <= suc <= 1 - 1e-5
     return [float(x) for x in v], klass, eps, suc, bool(box)
 
